@@ -608,7 +608,15 @@ def method_candidates(ws, holder, name):
             c.append(("other", ([_any(ws, "data") if hk == "object" else _any(ws, "object")],), {}))
     elif name in ("remove_entity", "remove_recursively"):
         if hk == "ws":
-            c.append(("obj", (_any(ws, "object"),), {}))
+            c.append(("obj", (_any(ws, "object"),), {}))  # an object with data and a property group
+            leaves = sorted((o for o in ws.objects if not o.children), key=lambda o: o.name)
+            if leaves:
+                c.append(("leaf", (leaves[0],), {}))
+            c.append(("data", (_any(ws, "data"),), {}))
+            empty = sorted((g for g in ws.groups if not g.children and type(g).__name__ != "RootGroup"),
+                           key=lambda g: g.name)
+            if empty:
+                c.append(("group", (empty[0],), {}))
         elif child is not None:
             c.append(("first", (child,), {}))
     elif name == "remove_property_group" and pgs:
@@ -783,6 +791,8 @@ def invoke(ws, holder, ep, tag, memo=None):
             thunk = lambda: setattr(holder, ep["name"], value)  # noqa: E731
         else:
             thunk = dict(candidates(ws, holder, ep)).get(tag)
+            if memo is not None and ep["kind"] == "call":
+                memo["targets"] = _targets(ws, holder, ep["name"], tag)
     except NotExercisable:
         raise
     except Exception as exc:  # the generic argument itself cannot be computed in this state
@@ -801,6 +811,38 @@ def invoke(ws, holder, ep, tag, memo=None):
     if inspect.isgenerator(res):
         res.close()
     return "ok"
+
+
+def _targets(ws, holder, name, tag):
+    """The stored entities a method call is about: the holder itself and the entities among its arguments, each with
+    its data children -> [(uid, class name, holder kind)] (taken before the call)."""
+    found = []
+
+    def add(obj):
+        if _kind_of(obj) in ("group", "object", "data", "pgroup") and getattr(obj, "uid", None) is not None \
+                and type(obj).__name__ != "RootGroup" and all(obj.uid != f.uid for f in found):
+            found.append(obj)
+
+    def walk(arg):
+        if isinstance(arg, (list, tuple)):
+            for a in arg:
+                walk(a)
+        elif isinstance(arg, dict):
+            for a in arg.values():
+                walk(a)
+        else:
+            add(arg)
+
+    add(holder)
+    for t, args, kwargs in method_candidates(ws, holder, name):
+        if t == tag:
+            walk(args)
+            walk(kwargs)
+    for obj in list(found):
+        for child in (getattr(obj, "children", None) or []):
+            if _kind_of(child) in ("data", "pgroup"):
+                add(child)
+    return [(str(o.uid), type(o).__name__, _kind_of(o)) for o in found[:12]]
 
 
 def repeat(memo):
@@ -854,6 +896,11 @@ def _changed(work, sha0, digest0):
     return content_digest(work) != digest0
 
 
+# entry points of which EVERY mutating recipe is kept (one bound variant each): what a removal leaves behind in memory
+# depends on whether its target has children
+MULTI = {"remove_entity", "remove_recursively"}
+
+
 def _x(ep, note):
     return {"id": ep["id"], "cls": "X", "tag": None, "rplus_out": None, "note": note}
 
@@ -885,23 +932,27 @@ def classify(item):
                 if not tags:
                     return _x(ep, "no generic argument known")
             tag = tags[idx]
+            memo = {}
             try:
-                out = invoke(ws, holder, ep, tag)
+                out = invoke(ws, holder, ep, tag, memo)
             except NotExercisable as exc:
                 out = None
                 results.append((tag, None, False, str(exc)))
         finally:
             _release(ws)
         if out is not None:
-            results.append((tag, out, _changed(work, sha0, digest0), ""))
-        if results[-1][2]:  # the content changed: mutating, with this recipe
+            results.append((tag, out, _changed(work, sha0, digest0), "", memo.get("targets", [])))
+        if results[-1][2] and ep["name"] not in MULTI:  # the content changed: mutating, with this recipe
             break
         idx += 1
         if idx >= len(tags) or ep["kind"] == "get":
             break
-    for tag, out, changed, _ in results:
-        if changed:
-            return {"id": ep["id"], "cls": "W", "tag": tag, "rplus_out": out, "note": ""}
+    hits = [res for res in results if res[2]]
+    if hits:
+        res = hits[0]
+        return {"id": ep["id"], "cls": "W", "tag": res[0], "rplus_out": res[1], "note": "",
+                "targets": res[4] if len(res) > 4 else [],
+                "variants": [(r[0], r[4] if len(r) > 4 else []) for r in hits[1:]]}
     done = [r for r in results if r[1] is not None]
     if not done:
         return _x(ep, results[-1][3])
